@@ -63,6 +63,10 @@ def handleIO (op : String) (args impl : List String) : Verdict :=
       | "open-ext" => if (Dispatch.openCodec (Dispatch.lowerExt ext)).isSome then "dispatched" else "invalid-extension"
       | _ => "?"
     compare expected (" ".intercalate impl) fun _ => false
+  | "det.write", _ =>
+    -- the harness wrote the list 50 times in all writer orders and snapshotted it: the answer must start with `same`
+    compare "same" (impl.headD "") fun _ => false
+  | "conc.batch", _ => compare "same" (" ".intercalate impl) fun _ => false
   | "io.file", [what] =>   -- empty extension
     handleIOEmptyExt what impl
   | _, _ => .bad s!"unknown op {op}"
